@@ -113,6 +113,9 @@ func (obj *ScalarId) SetParameters(parameters Vector) error {
 /* -------------------------------------------------------------------------- */
 
 func (obj *ScalarId) ImportConfig(config ConfigDistribution, t ScalarType) error {
+  if len(config.Distributions) == 0 {
+    return fmt.Errorf("invalid config file: no distributions given")
+  }
   distributions := []ScalarPdf{}
 
   for i := 0; i < len(config.Distributions); i++ {
